@@ -20,7 +20,8 @@ EVIDENCE_DIR = os.path.join(ROOT, 'evidence')
 REPLAY_DIR = os.path.join(ROOT, 'replays')
 REGRESS_DIR = os.path.join(ROOT, 'regress')
 PY = sys.executable
-RUN_TIMEOUT = 240          # seconds, per run, enforced inside the worker
+RUN_TIMEOUT = 900          # wall seconds per run: last-resort watchdog (kills the worker)
+RUN_CPU_BUDGET = 75        # CPU seconds per run: raises CpuBudgetExceeded inside the run
 
 
 class HarnessError(Exception):
@@ -43,12 +44,26 @@ def _prepare_worker():
 def execute_run(mod, run):
     """Execute one run in this process.  Returns the result dict; a Python exception
     escaping the check is a harness error, never a violation."""
+    import signal
+
+    from copsim.core import CpuBudgetExceeded
     from copsim.seams import reset_process_globals
     reset_process_globals()
     faulthandler.dump_traceback_later(RUN_TIMEOUT, exit=True)
+
+    def on_budget(signum, frame):
+        # re-arm: if the exception is absorbed as the outcome of one call, the rest of the run
+        # gets a further slice
+        signal.setitimer(signal.ITIMER_VIRTUAL, RUN_CPU_BUDGET / 3.0)
+        raise CpuBudgetExceeded('run used more than %d s of CPU time' % RUN_CPU_BUDGET)
+
+    old = signal.signal(signal.SIGVTALRM, on_budget)
+    signal.setitimer(signal.ITIMER_VIRTUAL, RUN_CPU_BUDGET)      # process CPU time, not wall
     try:
         return mod.execute(run)
     finally:
+        signal.setitimer(signal.ITIMER_VIRTUAL, 0)
+        signal.signal(signal.SIGVTALRM, old)
         faulthandler.cancel_dump_traceback_later()
 
 
